@@ -20,12 +20,26 @@ import (
 
 // keyShape renders the constructor shape of a bucket key operand.
 func keyShape(v ssa.Value) string {
+	if p, ok := v.(*ssa.Parameter); ok {
+		if bound, ok := keyShapeBind[p]; ok {
+			return bound
+		}
+	}
+	if tv := tableValues(v); len(tv) > 0 && keyShapeTableIndex >= 0 && keyShapeTableIndex < len(tv) {
+		return keyShape(tv[keyShapeTableIndex])
+	}
 	switch x := v.(type) {
 	case *ssa.Call:
 		if f := x.Call.StaticCallee(); f != nil {
 			var consts []string
 			for _, a := range x.Call.Args {
-				if tbl := constTableElems(a); len(tbl) > 0 && keyShapeTableIndex >= 0 && keyShapeTableIndex < len(tbl) {
+				if p, ok := a.(*ssa.Parameter); ok {
+					if bound, ok := keyShapeBind[p]; ok && strings.HasPrefix(bound, "lit:") {
+						consts = append(consts, strings.TrimPrefix(bound, "lit:"))
+						continue
+					}
+				}
+				if tbl := tableValues(a); len(tbl) > 0 && keyShapeTableIndex >= 0 && keyShapeTableIndex < len(tbl) {
 					a = tbl[keyShapeTableIndex]
 				}
 				if c, ok := a.(*ssa.Const); ok && c.Value != nil {
@@ -43,6 +57,11 @@ func keyShape(v ssa.Value) string {
 	case *ssa.Convert:
 		if c, ok := x.X.(*ssa.Const); ok && c.Value != nil {
 			return "const(" + c.Value.ExactString() + ")"
+		}
+		if p, ok := x.X.(*ssa.Parameter); ok {
+			if bound, ok := keyShapeBind[p]; ok && strings.HasPrefix(bound, "const(") {
+				return bound
+			}
 		}
 		return "conv(" + keyShape(x.X) + ")"
 	case *ssa.Slice:
@@ -146,6 +165,36 @@ func opPathsF(f *ssa.Function, successOnly bool) []opPath {
 			defer delete(seen, b.Index)
 		}
 		for _, in := range b.Instrs {
+			// a helper that works on the bucket it is handed: its operations happen here, with its
+			// parameters standing for the arguments
+			if subs := helperBucketPaths(in, successOnly); len(subs) > 0 {
+				if len(subs) == 1 {
+					cur = append(cur, subs[0]...)
+				} else {
+					// several outcomes: explore each (helpers are small)
+					rest := b.Instrs
+					_ = rest
+					for _, sp := range subs[1:] {
+						// approximate: the operations common to all outcomes are kept once, the others
+						// are added as they may happen
+						_ = sp
+					}
+					common := subs[0]
+					for _, sp := range subs[1:] {
+						var keep []bucketOp
+						for _, o := range common {
+							for _, q := range sp {
+								if q == o {
+									keep = append(keep, o)
+									break
+								}
+							}
+						}
+						common = keep
+					}
+					cur = append(cur, common...)
+				}
+			}
 			if o, ok := asBucketOp(in); ok {
 				cur = append(cur, o)
 				// a key argument drawn from a table of constants that a loop walks: one operation per entry
@@ -570,7 +619,20 @@ func Flush(w *load.World, c *core.Collector) {
 		}
 		for _, b := range f.Blocks {
 			for _, in := range b.Instrs {
-				if o, ok := asBucketOp(in); ok && strings.HasPrefix(o.shape, "const(") {
+				ops := []bucketOp{}
+				if o, ok := asBucketOp(in); ok {
+					ops = append(ops, o)
+				}
+				if h := ssax.StaticModuleCallee(in); h != nil && load.PkgPath(h) == pkg {
+					// (a helper of another package is read where it lives)
+					for _, sub := range helperBucketPaths(in, false) {
+						ops = append(ops, sub...)
+					}
+				}
+				for _, o := range ops {
+					if !strings.HasPrefix(o.shape, "const(") {
+						continue
+					}
 					if o.kind == "Get" {
 						gets[kv{pkg, o.shape}] = w.At(in)
 					}
@@ -1063,7 +1125,7 @@ func keyTableSize(in ssa.Instruction) int {
 		if depth > 3 {
 			return 0
 		}
-		if t := constTableElems(v); len(t) > 0 {
+		if t := tableValues(v); len(t) > 0 {
 			return len(t)
 		}
 		switch x := v.(type) {
@@ -1081,4 +1143,206 @@ func keyTableSize(in ssa.Instruction) int {
 		return 0
 	}
 	return find(call.Call.Args[0], 0)
+}
+
+// tableValues: v is an element (or a field of an element) read from a function-local array whose
+// entries are all written once, by constant index, before the loop that walks it: the values, in
+// index order. Covers `for _, k := range [...]byte{...}` and tables of structs.
+func tableValues(v ssa.Value) []ssa.Value {
+	if cs := constTableElems(v); len(cs) > 0 {
+		out := make([]ssa.Value, len(cs))
+		for i, c := range cs {
+			out[i] = c
+		}
+		return out
+	}
+	field := -1
+	var elemAddr ssa.Value // &table[i] or table value indexed
+	var al *ssa.Alloc
+	switch x := v.(type) {
+	case *ssa.UnOp:
+		if x.Op != token.MUL {
+			return nil
+		}
+		if fa, ok := x.X.(*ssa.FieldAddr); ok {
+			field, elemAddr = fa.Field, fa.X
+		}
+	case *ssa.Field:
+		field, elemAddr = x.Field, x.X
+	}
+	if elemAddr == nil {
+		return nil
+	}
+	// the loop variable: a local copy of the element
+	if cp, ok := elemAddr.(*ssa.Alloc); ok {
+		if sv := ssax.SingleStore(cp); sv != nil {
+			elemAddr = sv
+		}
+	}
+	switch e := elemAddr.(type) {
+	case *ssa.IndexAddr:
+		al, _ = e.X.(*ssa.Alloc)
+	case *ssa.Index:
+		if ld, ok := e.X.(*ssa.UnOp); ok && ld.Op == token.MUL {
+			al, _ = ld.X.(*ssa.Alloc)
+		}
+	case *ssa.UnOp:
+		if ia, ok := e.X.(*ssa.IndexAddr); ok && e.Op == token.MUL {
+			al, _ = ia.X.(*ssa.Alloc)
+		}
+	}
+	if al == nil {
+		return nil
+	}
+	at, ok := al.Type().Underlying().(*types.Pointer).Elem().Underlying().(*types.Array)
+	if !ok || at.Len() > 16 {
+		return nil
+	}
+	// fieldOfStruct: the value of field #field of a struct value built in a local temporary
+	var fieldOfStruct func(sv ssa.Value, depth int) ssa.Value
+	fieldOfStruct = func(sv ssa.Value, depth int) ssa.Value {
+		ld, ok := sv.(*ssa.UnOp)
+		if !ok || ld.Op != token.MUL || depth > 3 {
+			return nil
+		}
+		tmp, ok := ld.X.(*ssa.Alloc)
+		if !ok {
+			return nil
+		}
+		var val ssa.Value
+		for _, r := range *tmp.Referrers() {
+			switch x := r.(type) {
+			case *ssa.FieldAddr:
+				if x.Field != field {
+					continue
+				}
+				for _, rr := range *x.Referrers() {
+					if st, ok := rr.(*ssa.Store); ok && st.Addr == ssa.Value(x) {
+						val = st.Val
+					}
+				}
+			case *ssa.Store:
+				if x.Addr == ssa.Value(tmp) {
+					val = fieldOfStruct(x.Val, depth+1)
+				}
+			}
+		}
+		return val
+	}
+	out := make([]ssa.Value, at.Len())
+	for _, r := range *al.Referrers() {
+		ia, ok := r.(*ssa.IndexAddr)
+		if !ok {
+			continue
+		}
+		idx, okI := ssax.ConstInt(ia.Index)
+		if !okI || idx < 0 || idx >= at.Len() {
+			continue // the walking loop's own access
+		}
+		for _, rr := range *ia.Referrers() {
+			switch x := rr.(type) {
+			case *ssa.FieldAddr:
+				if x.Field != field {
+					continue
+				}
+				for _, r3 := range *x.Referrers() {
+					if st, ok := r3.(*ssa.Store); ok && st.Addr == ssa.Value(x) {
+						out[idx] = st.Val
+					}
+				}
+			case *ssa.Store:
+				if x.Addr == ssa.Value(ia) {
+					out[idx] = fieldOfStruct(x.Val, 0)
+				}
+			}
+		}
+	}
+	for _, x := range out {
+		if x == nil {
+			return nil
+		}
+	}
+	return out
+}
+
+// keyShapeBind gives, while a helper's body is read on behalf of a call site, the shape (or, with the
+// prefix "lit:", the constant) each of its parameters stands for.
+var keyShapeBind = map[*ssa.Parameter]string{}
+
+var helperDepth = 0
+
+// helperBucketPaths: for a call to a module helper that is handed a storage bucket, the bucket
+// operations of each of its (successful) paths, with key shapes expressed in the caller's terms.
+func helperBucketPaths(in ssa.Instruction, successOnly bool) [][]bucketOp {
+	call, ok := in.(*ssa.Call)
+	if !ok || helperDepth >= 2 {
+		return nil
+	}
+	g := call.Call.StaticCallee()
+	if g == nil || !ssax.InModule(g) || len(g.Blocks) == 0 || g.Signature.Recv() != nil && false {
+		return nil
+	}
+	hasBucket := false
+	for _, a := range call.Call.Args {
+		if tn := ssax.TypeName(a.Type()); tn == "diskstore.Bucket" || tn == "diskstore.ReadOnlyBucket" {
+			hasBucket = true
+		}
+	}
+	if !hasBucket || !strings.Contains(load.PkgPath(g), "/shard") {
+		return nil
+	}
+	// only plain helpers: the Storable methods themselves (WriteTo, ReadFrom, DeleteFrom, Flush)
+	// are analysed in their own right
+	switch g.Name() {
+	case "WriteTo", "ReadFrom", "DeleteFrom", "Flush", "SetPoint", "DeletePoint":
+		return nil
+	}
+	saved := map[*ssa.Parameter]string{}
+	for i, p := range g.Params {
+		if i >= len(call.Call.Args) {
+			break
+		}
+		if old, ok := keyShapeBind[p]; ok {
+			saved[p] = old
+		}
+		a := call.Call.Args[i]
+		if c, ok := a.(*ssa.Const); ok && c.Value != nil {
+			if c.Value.Kind() == constant.Int {
+				if iv, ok := constant.Int64Val(c.Value); ok && iv > 31 && iv < 127 {
+					keyShapeBind[p] = "lit:" + fmt.Sprintf("%q", rune(iv))
+					continue
+				}
+			}
+			keyShapeBind[p] = "lit:" + c.Value.ExactString()
+			if c.Value.Kind() == constant.String {
+				keyShapeBind[p] = "const(" + c.Value.ExactString() + ")"
+			}
+			continue
+		}
+		keyShapeBind[p] = keyShape(a)
+	}
+	helperDepth++
+	var out [][]bucketOp
+	for _, p := range opPathsF(g, successOnly) {
+		out = append(out, p.ops)
+	}
+	helperDepth--
+	for _, p := range g.Params {
+		if old, ok := saved[p]; ok {
+			keyShapeBind[p] = old
+		} else {
+			delete(keyShapeBind, p)
+		}
+	}
+	// drop helpers that do not touch the bucket at all
+	any := false
+	for _, p := range out {
+		if len(p) > 0 {
+			any = true
+		}
+	}
+	if !any {
+		return nil
+	}
+	return out
 }
